@@ -104,6 +104,89 @@ def make_Select(source: ast.expr, selection: ast.expr):
     )
 
 
+def make_binders_unique(a: ast.AST) -> ast.AST:
+    """Rename every lambda argument whose name is bound more than once in the query, or
+    that is also used as a free variable, to a fresh unique name.
+
+    The rewrites below move lambdas under other lambdas and substitute expressions into
+    lambda bodies. That is only safe if no two binders share a name - otherwise a variable
+    can end up referring to the wrong lambda's argument.
+
+    Args:
+        a       The query ast
+
+    Returns:
+        The query, with clashing lambda arguments renamed (`a` is left untouched where
+        nothing needs renaming).
+    """
+    bound: List[str] = [
+        arg.arg for n in ast.walk(a) if isinstance(n, ast.Lambda) for arg in n.args.args
+    ]
+
+    class find_free(ast.NodeVisitor):
+        def __init__(self):
+            self.free = set()
+            self._bound: List[str] = []
+
+        def visit_Lambda(self, node: ast.Lambda):
+            names = [arg.arg for arg in node.args.args]
+            self._bound.extend(names)
+            self.visit(node.body)
+            del self._bound[len(self._bound) - len(names) :]
+
+        def visit_Name(self, node: ast.Name):
+            if node.id not in self._bound:
+                self.free.add(node.id)
+
+    ff = find_free()
+    ff.visit(a)
+    clashing = {n for n in bound if bound.count(n) > 1 or n in ff.free}
+    if len(clashing) == 0:
+        return a
+
+    class rename(ast.NodeTransformer):
+        def __init__(self):
+            self._stack: List[Tuple[str, str]] = []
+
+        def visit_Lambda(self, node: ast.Lambda):
+            mapping = [
+                (arg.arg, arg_name() if arg.arg in clashing else arg.arg)
+                for arg in node.args.args
+            ]
+            self._stack.extend(mapping)
+            new_body = self.visit(node.body)
+            del self._stack[len(self._stack) - len(mapping) :]
+            new_args = copy.copy(node.args)
+            new_args.args = [ast.arg(arg=new, annotation=None) for _, new in mapping]
+            return ast.Lambda(args=new_args, body=new_body)
+
+        def visit_Call(self, node: ast.Call):
+            old_names = (
+                [arg.arg for arg in node.func.args.args]
+                if isinstance(node.func, ast.Lambda)
+                else []
+            )
+            new_node = self.generic_visit(node)
+            assert isinstance(new_node, ast.Call)
+            if len(old_names) > 0 and len(new_node.keywords) > 0:
+                # The lambda is called with keyword arguments - they follow the renaming.
+                assert isinstance(new_node.func, ast.Lambda)
+                renamed = dict(zip(old_names, [arg.arg for arg in new_node.func.args.args]))
+                new_node.keywords = [
+                    ast.keyword(arg=renamed.get(k.arg, k.arg), value=k.value)  # type: ignore
+                    for k in new_node.keywords
+                ]
+            return new_node
+
+        def visit_Name(self, node: ast.Name):
+            for old, new in reversed(self._stack):
+                if old == node.id:
+                    return ast.Name(id=new, ctx=ast.Load()) if new != old else node
+            return node
+
+    return rename().visit(a)
+
+
 class FuncADLIndexError(Exception):
     """If we are doing an indexing operation and we are out of range, throw this."""
 
@@ -145,6 +228,7 @@ class simplify_chained_calls(FuncADLNodeTransformer):
                 name = n.id if isinstance(n, ast.Name) else n.arg if isinstance(n, ast.arg) else ""
                 if name.startswith("arg_") and name[4:].isdigit():
                     argument_var_counter = max(argument_var_counter, int(name[4:]) + 1)
+            node = make_binders_unique(node)
         return super().visit(node)
 
     def visit_Select_of_Select(self, parent: ast.Call, selection: ast.Lambda):
